@@ -261,3 +261,204 @@ def lexically_precedes_dominating(fn, guard, site):
     if lca.get('k') == 'Let':
         return False
     return False
+
+
+# ---------------------------------------------------------------------------
+# format_args! templates (this nightly lowers them to Arguments::new(<byte template>, &args))
+
+
+def decode_fmt_template(hexstr):
+    """Decode the fmt::Arguments byte template into a list of ('lit', str) / ('arg', index|None, flags) pieces."""
+    b = bytes.fromhex(hexstr)
+    out = []
+    i = 0
+    nxt = 0
+    while i < len(b):
+        c = b[i]
+        if c == 0:
+            break
+        if c < 0x80:
+            out.append(('lit', b[i + 1:i + 1 + c].decode('utf-8', 'replace')))
+            i += 1 + c
+        elif c == 0x80:
+            ln = b[i + 1] | (b[i + 2] << 8)
+            out.append(('lit', b[i + 3:i + 3 + ln].decode('utf-8', 'replace')))
+            i += 3 + ln
+        elif c >= 0xC0:
+            i += 1
+            flags = None
+            if c & 1:
+                flags = int.from_bytes(b[i:i + 4], 'little')
+                i += 4
+            if c & 2:
+                i += 2
+            if c & 4:
+                i += 2
+            idx = None
+            if c & 8:
+                idx = b[i] | (b[i + 1] << 8)
+                i += 2
+            if idx is None:
+                idx = nxt
+            nxt = idx + 1
+            out.append(('arg', idx, flags))
+        else:
+            out.append(('?', c))
+            i += 1
+    return out
+
+
+def format_sites(root):
+    """Every format_args! expansion below root: dict(node, pieces, args=[(trait, expr)])."""
+    out = []
+    for n in walk(root):
+        if n.get('k') != 'Call':
+            continue
+        d = n.get('def') or ''
+        if d.endswith('fmt::Arguments::new') and n['args'] and 'hex' in strip_refs(n['args'][0]):
+            pieces = decode_fmt_template(strip_refs(n['args'][0])['hex'])
+            out.append({'node': n, 'pieces': pieces, 'args': None})
+        elif d.endswith('fmt::Arguments::from_str') or d.endswith('fmt::Arguments::from_str_nonconst'):
+            v = lit_value(n['args'][0]) if n['args'] else None
+            out.append({'node': n, 'pieces': [('lit', v)] if v is not None else [], 'args': []})
+    return out
+
+
+def format_sites_in_fn(fn):
+    """format sites with their argument expressions resolved: the expansion is
+    `{ let args = (&a, &b); let args = [Argument::new_display(args.0), ..]; Arguments::new(tmpl, &args) }`."""
+    pm = parents(fn)
+    sites = format_sites(fn['body'])
+    for s in sites:
+        if s['args'] is not None:
+            continue
+        # find the enclosing block that holds the two `let args`
+        cur = pm.get(id(s['node']))
+        tup = None
+        arr = None
+        hops = 0
+        while cur is not None and hops < 6:
+            if cur.get('k') == 'Block':
+                for st in cur.get('stmts', []):
+                    if st.get('k') == 'Let' and 'init' in st:
+                        init = st['init']
+                        if init.get('k') == 'Tup':
+                            tup = init
+                        elif init.get('k') == 'Array':
+                            arr = init
+                        elif init.get('k') == 'AddrOf' and init['e'].get('k') == 'Tup':
+                            tup = init['e']
+                if arr is not None:
+                    break
+            cur = pm.get(id(cur))
+            hops += 1
+        args = []
+        if arr is not None:
+            for a in arr['es']:
+                trait = (a.get('def') or '').split('::')[-1]
+                inner = a['args'][0] if a.get('args') else None
+                expr = inner
+                if inner is not None and inner.get('k') == 'Field' and tup is not None and inner.get('f', '').isdigit():
+                    idx = int(inner['f'])
+                    if idx < len(tup['es']):
+                        expr = tup['es'][idx]
+                args.append((trait, expr))
+        s['args'] = args
+    return sites
+
+
+def fmt_text(site):
+    """Template rendered with {i} placeholders."""
+    out = []
+    for p in site['pieces']:
+        if p[0] == 'lit':
+            out.append(p[1])
+        elif p[0] == 'arg':
+            out.append('{%d}' % p[1])
+    return ''.join(out)
+
+
+# ---------------------------------------------------------------------------
+# provenance (A3): which calls / constants / params can an expression's value derive from
+
+
+def _slot_of_pat(pat, hid):
+    p = pat
+    while p.get('k') in ('PRef', 'PDeref'):
+        p = p['p']
+    if p.get('k') != 'PTup':
+        return None
+    for i, s in enumerate(p['subs']):
+        for b in pat_bindings(s):
+            if b['hid'] == hid:
+                return i
+    return None
+
+
+def origins(fn, e, depth=0, seen=None):
+    """Backward slice of e through locals, blocks, refs, field/method views and tuple slots.
+    Returns a list of origin nodes: calls (Call/MCall), literals, params (Bind nodes with kind param),
+    closures params, other expression nodes where the slice stops."""
+    if seen is None:
+        seen = set()
+    if id(e) in seen or depth > 40:
+        return []
+    seen.add(id(e))
+    k = e.get('k')
+    bs = binding_sites(fn)
+    if k in ('AddrOf', 'Cast', 'Try'):
+        return origins(fn, e['e'], depth + 1, seen)
+    if k == 'Unary' and e.get('op') == 'Deref':
+        return origins(fn, e['e'], depth + 1, seen)
+    if k in ('Block', 'If', 'Match'):
+        out = []
+        for v in value_exprs(e):
+            if v is not e:
+                out.extend(origins(fn, v, depth + 1, seen))
+        return out
+    if k == 'Path' and e.get('res') == 'local':
+        b = bs.get(e.get('hid'))
+        if b is None:
+            return [e]
+        if b['kind'] in ('let', 'letcond'):
+            init = b['node'].get('init') if b['kind'] == 'let' else b['node'].get('e')
+            if init is None:
+                return [b['bind']]
+            slot = _slot_of_pat(b['pat'], e.get('hid'))
+            out = []
+            for v in value_exprs(init):
+                if slot is not None and v.get('k') == 'Tup' and slot < len(v['es']):
+                    out.extend(origins(fn, v['es'][slot], depth + 1, seen))
+                else:
+                    out.extend(origins(fn, v, depth + 1, seen))
+            return out
+        if b['kind'] == 'arm':
+            # bound by a match arm / if-let arm: the value comes from (part of) the scrutinee
+            par = parents(fn).get(id(b['node']))
+            if par is not None and par.get('k') == 'Match':
+                return origins(fn, par['e'], depth + 1, seen)
+        if b['kind'] == 'for':
+            return origins(fn, b['node']['iter'], depth + 1, seen)
+        return [b['bind']]
+    return [e]
+
+
+def origin_callees(fn, e, through=()):
+    """Short names of callees the value of e derives from, following through receiver/args of calls whose
+    method name is listed in `through` (pure views/adaptors) or any call when through is None."""
+    out = set()
+    todo = list(origins(fn, e))
+    seen = set()
+    while todo:
+        o = todo.pop()
+        if id(o) in seen:
+            continue
+        seen.add(id(o))
+        if o.get('k') in ('Call', 'MCall'):
+            name = o.get('m') or short(callee_decl(o) or '?').split('::')[-1]
+            out.add(short(callee(o) or callee_decl(o) or name))
+            if through is None or name in through:
+                for a in call_args(o):
+                    if a.get('k') != 'Closure':
+                        todo.extend(origins(fn, a))
+    return out
